@@ -469,6 +469,10 @@ pub struct SymBattery {
     pub hs_is_diagonal: bool,
     pub shift: Vec<f64>,      // combined_ds_shift(step_z = x, step_s = y, sigma_mu)
     pub offset: Vec<f64>,     // Δs_from_Δz_offset(ds = x)
+    pub expanded_x: Vec<f64>, // sparse-expanded second-order cone: eta^2 (D + uu' - vv') x, the block the KKT matrix holds (else empty)
+    pub ident_hs_x: Vec<f64>, // mul_Hs x after set_identity_scaling() on the cone scaled above
+    pub ident_block: Vec<f64>, // get_Hs after set_identity_scaling()
+    pub ident_expanded_x: Vec<f64>, // as expanded_x, after set_identity_scaling()
 }
 
 /// Evaluate every scaling / Jordan-algebra operation of one symmetric cone (nonnegative, second-order, PSD triangle) at the
@@ -522,12 +526,41 @@ pub fn sym_cone_battery(
             out.offset = v(&mut |o| { let mut w = vec![0.0; n]; c.Δs_from_Δz_offset(o, x, &mut w, z) });
         }};
     }
+    // the same cone object put back to the identity scaling, as at the start of a second solve
+    macro_rules! ident {
+        ($c:expr) => {{
+            let c = $c;
+            c.set_identity_scaling();
+            let mut o = vec![0.0; n];
+            let mut w = vec![0.0; n];
+            c.mul_Hs(&mut o, x, &mut w);
+            out.ident_hs_x = o;
+            let nb = if c.Hs_is_diagonal() { n } else { n * (n + 1) / 2 };
+            let mut blk = vec![0.0; nb];
+            c.get_Hs(&mut blk);
+            out.ident_block = blk;
+        }};
+    }
+    let expanded = |c: &SecondOrderCone<f64>| -> Vec<f64> {
+        match &c.sparse_data {
+            None => vec![],
+            Some(sd) => {
+                let (ux, vx): (f64, f64) = ((0..n).map(|i| sd.u[i] * x[i]).sum(), (0..n).map(|i| sd.v[i] * x[i]).sum());
+                (0..n).map(|i| c.η * c.η * ((if i == 0 { sd.d } else { 1.0 }) * x[i] + sd.u[i] * ux - sd.v[i] * vx)).collect()
+            }
+        }
+    };
     match make_cone(cone) {
-        SupportedCone::NonnegativeCone(mut c) => run!(&mut c, true),
-        SupportedCone::SecondOrderCone(mut c) => run!(&mut c, true),
+        SupportedCone::NonnegativeCone(mut c) => { run!(&mut c, true); ident!(&mut c); }
+        SupportedCone::SecondOrderCone(mut c) => {
+            run!(&mut c, true);
+            out.expanded_x = expanded(&c);
+            ident!(&mut c);
+            out.ident_expanded_x = expanded(&c);
+        }
         // (the PSD cone does not implement the general Jordan division: it is never needed)
         #[cfg(feature = "sdp")]
-        SupportedCone::PSDTriangleCone(mut c) => run!(&mut c, false),
+        SupportedCone::PSDTriangleCone(mut c) => { run!(&mut c, false); ident!(&mut c); }
         _ => {}
     }
     out
